@@ -25,7 +25,15 @@ Proxy._register / _worker / _lookup / _unregister / stop.  Replaced: ru.zmq.Clie
 (__init__/start/wait), ru.zmq.PubSub / Queue (in-memory bridges whose stop()
 disposes what they hold), multiprocessing in proxy.py (the worker runs in a
 thread), the component manager (closing it ends the side's components and
-local bridges).  After close() the side's process is considered gone."""
+local bridges).  After close() the side's process is considered gone.
+
+Fault cases (kind 'fault'): a fault schedule names, per crosswire (side,
+direction, channel), the calls of publisher.put on that crosswire's publisher
+(1st, 2nd, ...) that raise; the in-memory publisher counts the calls made by the
+publisher object created inside Session.crosswire_pubsub and raises accordingly;
+the exception leaves the real pubsub_fwd and is swallowed and counted by the
+network exactly where ru's Subscriber._listener logs 'callback error'.  The
+harness records (crosswire, message id) of every raising put."""
 import itertools
 import os
 import sys
@@ -437,8 +445,11 @@ class C16(Prop):
             'seed-determined transport schedule; life cycles: client + 2 pilots with every order of the three closes and '
             'messages in between (external and embedded proxy), pilots that come too early / restart / come after the '
             'client closed, 150 (thorough 2500) random histories of connect / close / round events over up to 4 (6) '
-            'pilots; non-trivial = a network with >= 1 pilot in which some message was delivered on a side other than '
-            'the one it was posted on (life cycles: such a message posted after some pilot has closed)')
+            'pilots; failing hand-overs: five flagged messages over one crosswire with a sample (thorough: all 31 non-empty '
+            'subsets) of failing attempts among the first five, both directions, plus 120 (thorough 2500) random message '
+            'batches with random fault schedules on up to three crosswires; non-trivial = a network with >= 1 pilot in which some message was delivered on a side other than '
+            'the one it was posted on (life cycles: such a message posted after some pilot has closed; faults: some '
+            'hand-over failed and some message still crossed)')
     trusted = [
         'correspondence harness harness/c16.py: real Session.__init__/_init_primary/_init_agent_0/_publish_cfg/'
         '_crosswire_proxy/crosswire_pubsub and real Client/AgentComponent.advance/publish/register_* driven on stub '
@@ -450,6 +461,8 @@ class C16(Prop):
         'stand-ins (synchronous request dispatch into the real request table, bridges whose stop() disposes what they '
         'hold, worker in a thread), the component manager replaced by one that ends the side\'s components and local '
         'bridges; a closed side\'s process is considered gone',
+        'fault cases: publisher.put of a crosswire raises on scheduled attempts (in-memory publisher); the exception is '
+        'swallowed where ru.zmq.Subscriber._listener swallows it',
         'modelled, not verified: zmq delivery and ordering, the real zmq bridges of the proxy and its monitor thread / '
         'heartbeat timeout, messages in flight while a session closes (life-cycle events happen at silent moments), '
         'the task queues crosswired by the task manager, the contents of messages other than origin/fwd',
